@@ -161,8 +161,16 @@ func runC19(r *Run) {
 					it.doc = []byte(`{"a":`)
 					it.desc = "malformed"
 				case 3:
-					it.doc = []byte(`"a string"`)
-					if it.target == 0 || it.target == 2 || it.target == 3 {
+					// well-formed JSON that the target rejects
+					switch it.target {
+					case 1:
+						it.doc = []byte(`"a string"`)
+						if t.Draw(2) == 1 {
+							it.doc = []byte(`{"name":"x","n":"not a number"}`)
+						}
+					case 3:
+						it.doc = []byte(`"!!! not base64 !!!"`)
+					default:
 						it.doc = []byte(`[1,2`)
 					}
 					it.desc = "wrong-type-or-malformed"
